@@ -69,12 +69,9 @@ class Repo:
         Calendar.set_mode also accepts (an eighth of all cases)."""
         if case is not None:
             alias = case.get("alias") if isinstance(case, dict) else None
-            cold = False
             if alias is None:
-                crc = zlib.crc32(json.dumps(
-                    case, sort_keys=True, default=str).encode())
-                alias = crc % 8
-                cold = crc // 8 % 4 == 0
+                alias = zlib.crc32(json.dumps(
+                    case, sort_keys=True, default=str).encode()) % 8
             elif alias is True:
                 alias = 0
             elif alias is False:
@@ -97,15 +94,13 @@ class Repo:
             scratch = copy.copy(self.CALENDAR)
             scratch.set_mode(("360day", "366day", "gregorian", "365day")[
                 len(mode) % 4])
-            if cold:
-                # as early in a process: nothing memoised yet
-                for f in self._memoised():
-                    f.cache_clear()
 
     def scratch_for(self, case):
         """for checks that select the mode themselves: the same scratch
-        calendars (private object / shallow copy switched to another mode,
-        sometimes with cold memo tables) for the same share of cases"""
+        calendars (private object / shallow copy switched to another mode)
+        for the same share of cases.  (The library's memo tables are never
+        emptied: stale entries are exactly what the cache-key changes of
+        section 12 leave behind.)"""
         crc = zlib.crc32(json.dumps(case, sort_keys=True,
                                     default=str).encode())
         mode = self.CALENDAR.mode
@@ -115,15 +110,6 @@ class Repo:
         elif crc % 8 == 4:
             copy.copy(self.CALENDAR).set_mode(
                 ("360day", "366day", "gregorian", "365day")[len(mode) % 4])
-            if crc // 8 % 4 == 0:
-                for f in self._memoised():
-                    f.cache_clear()
-
-    def _memoised(self):
-        if getattr(self, "_memo_funcs", None) is None:
-            self._memo_funcs = [f for f in vars(self.data).values()
-                                if callable(getattr(f, "cache_clear", None))]
-        return self._memo_funcs
 
     def tp(self, kw):
         return self.TimePoint(**kw)
